@@ -54,4 +54,12 @@ def vectors_from_gram_matrix(gram: np.ndarray) -> list[np.ndarray]:
     except np.linalg.LinAlgError:
         print("Matrix is not positive semidefinite. Using eigendecomposition as alternative.")
         d, v = np.linalg.eig(gram)
+        # eig does not return orthogonal eigenvectors inside a repeated eigenvalue. Orthonormalise them (Gram-Schmidt
+        # only mixes eigenvectors that belong to the same eigenspace of a Hermitian matrix), the ones of numerically
+        # zero eigenvalues last, keeping the direction of every vector.
+        order = np.argsort(np.abs(d) <= dim * np.finfo(float).eps * np.max(np.abs(d)), kind="stable")
+        d, v = d[order], v[:, order]
+        q_mat, r_mat = np.linalg.qr(v)
+        r_diag = np.diag(r_mat)
+        v = q_mat * (r_diag / np.maximum(np.abs(r_diag), np.finfo(float).tiny))
         return [scipy.linalg.sqrtm(np.diag(d)) @ v[i].conj().T for i in range(dim)]
